@@ -87,6 +87,84 @@ type extraMount struct {
 	Early  bool   `json:"early"`
 }
 
+type servedInfo struct {
+	HostTree string `json:"host_tree"`
+	App      int    `json:"app"` // index of the served app in the host tree
+	Place    string `json:"place"`
+	SubFirst bool   `json:"sub_first"`
+	BottomUp bool   `json:"bottom_up"`
+}
+
+// subView returns the tree as the directly served app s sees it: s is the root, the apps
+// mounted below it (through first mounts and extra mounts) keep their relative prefixes.
+// A served app runs with its own (default) routing configuration.
+func (ts *treeSpec) subView(s int) *treeSpec {
+	type edge struct {
+		parent, child int
+		primary       bool
+		rel           string
+		early         bool
+	}
+	var edges []edge
+	for i := 1; i < len(ts.Apps); i++ {
+		edges = append(edges, edge{ts.Apps[i].Parent, i, true, ts.Apps[i].Rel, false})
+	}
+	for _, x := range ts.Extra {
+		edges = append(edges, edge{x.Parent, x.App, false, x.Rel, x.Early})
+	}
+	inside := map[int]bool{s: true}
+	for changed := true; changed; {
+		changed = false
+		for _, ed := range edges {
+			if inside[ed.parent] && !inside[ed.child] {
+				inside[ed.child], changed = true, true
+			}
+		}
+	}
+	v := &treeSpec{BottomUp: ts.BottomUp, RoutesFirst: ts.RoutesFirst, MixedCase: ts.MixedCase, StartAt: -1,
+		host: ts, inv: map[int]int{}}
+	v.orig = append(v.orig, s)
+	for i := 1; i < len(ts.Apps); i++ {
+		if inside[i] && i != s {
+			v.orig = append(v.orig, i)
+		}
+	}
+	for k, o := range v.orig {
+		v.inv[o] = k
+	}
+	for k, o := range v.orig {
+		a := ts.Apps[o]
+		if k == 0 {
+			a.Parent, a.Rel, a.Full, a.Level = -1, "", "", 0
+			a.ViaGroup, a.GrpSet, a.NoSlash = false, false, false
+			v.Apps = append(v.Apps, a)
+			continue
+		}
+		first := true
+		for _, ed := range edges {
+			if ed.child != o || !inside[ed.parent] {
+				continue
+			}
+			if first {
+				first = false
+				a.Parent, a.Rel = v.inv[ed.parent], ed.rel
+				if !ed.primary {
+					a.ViaGroup, a.GrpSet, a.NoSlash = false, false, false
+				}
+				continue
+			}
+			v.Extra = append(v.Extra, extraMount{App: k, Parent: v.inv[ed.parent], Rel: ed.rel, Early: ed.early})
+		}
+		v.Apps = append(v.Apps, a)
+	}
+	for k := 1; k < len(v.Apps); k++ {
+		pc := v.places()[k][0]
+		v.Apps[k].Full, v.Apps[k].Level = pc.Full, pc.Level
+	}
+	v.Served = &servedInfo{HostTree: ts.describe(), App: s, Place: ts.Apps[s].Full, SubFirst: ts.SubFirst, BottomUp: ts.BottomUp}
+	return v
+}
+
 // place is one absolute mount place of an app instance.
 type place struct {
 	App   int
@@ -111,6 +189,19 @@ type treeSpec struct {
 	// Extra mounts of app instances that are already mounted somewhere (same instance under two
 	// prefixes or in two parents); their nested apps are reachable below every place.
 	Extra []extraMount `json:"extra,omitempty"`
+
+	// ServeSub > 0: that mounted app instance is also started and served directly (as its own
+	// root), before the root app's first start (SubFirst) or after it. All mounting is done
+	// before either start.
+	ServeSub int  `json:"serve_sub,omitempty"`
+	SubFirst bool `json:"sub_first,omitempty"`
+	// Served is set on the view of a tree as seen through the directly served app: the
+	// sub-tree below it, re-indexed, prefixes relative to it.
+	Served *servedInfo `json:"served,omitempty"`
+
+	host *treeSpec   // view: the tree that is actually built
+	orig []int       // view: view index -> index in host
+	inv  map[int]int // view: index in host -> view index
 
 	pl [][]place // cache of places(); reset by cloneTree
 }
@@ -451,7 +542,7 @@ func (r *recorder) endpoint(i int) fiber.Handler {
 
 // build constructs a fresh fiber app tree from the spec. The construction order is a function of
 // the spec alone, so two builds are "the same program".
-func build(ts *treeSpec, rec *recorder) *fiber.App {
+func build(ts *treeSpec, rec *recorder) []*fiber.App {
 	n := len(ts.Apps)
 	apps := make([]*fiber.App, n)
 	children := make([][]int, n)
@@ -580,7 +671,7 @@ func build(ts *treeSpec, rec *recorder) *fiber.App {
 			step()
 		}
 	}
-	return apps[0]
+	return apps
 }
 
 // ---------------------------------------------------------------------------------------------
@@ -685,7 +776,34 @@ func genTree(r *gen.Rand) *treeSpec {
 	markExplicitDefault(ts)
 	pickGroupForms(ts)
 	pickNoSlash(ts)
+	pickServe(ts)
 	return ts
+}
+
+// pickServe lets, in a quarter of the trees, one mounted app also be started and served
+// directly, before or after the root's first start (own generator, post-pass).
+func pickServe(ts *treeSpec) {
+	cr := gen.New(gen.Hash64("serve-sub", ts.describe()))
+	n := len(ts.Apps)
+	if n < 2 || ts.StartAt >= 0 || !cr.Chance(1, 4) {
+		return
+	}
+	// prefer apps that have apps mounted into them
+	var withKids, all []int
+	for i := 1; i < n; i++ {
+		all = append(all, i)
+		for j := 1; j < n; j++ {
+			if ts.Apps[j].Parent == i {
+				withKids = append(withKids, i)
+				break
+			}
+		}
+	}
+	if len(withKids) > 0 && cr.Chance(3, 4) {
+		all = withKids
+	}
+	ts.ServeSub = gen.Pick(cr, all)
+	ts.SubFirst = cr.Bool()
 }
 
 // pickNoSlash spells a tenth of the mount prefixes without their leading slash (own
